@@ -5,7 +5,12 @@ The tables are `Gen.london/shanghai/cancun`, regenerated on every run from the
 compiled crate.  The finite part (3 forks × 256 bytes) is decided by kernel
 evaluation of a Boolean checker (`decide +kernel`) and lifted to the `Prop`
 statement by `Ops.tableOK_row`; `from_slice` and `push_for` are ordinary
-theorems for all slices / all `u128`.
+theorems for all slices / all `u128`.  `FromStr` is the one conversion with an
+infinite domain: the strings it accepts are read from the code `build.rs`
+generated for this build (`Gen.fromStr_*`, a `match` on string literals whose
+wildcard arm returns the error) and `C17_from_str` shows that they are exactly the
+256 mnemonics of the table, in table order — so every other string is rejected,
+and `Ops.parse` (look the mnemonic up in the table) is that function.
 -/
 import EtkVerif.Ops.TableLondon
 import EtkVerif.Ops.TableShanghai
@@ -71,5 +76,15 @@ example : pushFor 256 = some 0x61 := by decide
 example : fromSlice Gen.cancun [0x61, 1, 2] = .ok 3 0x61 := by decide
 example : fromSlice Gen.cancun [0x61, 1] = .tryInto := by decide
 example : fromSlice Gen.cancun [0x01, 1] = .noImmediate := by decide
+
+/-- `FromStr` accepts exactly the table's mnemonics (source-level: the arms of the generated `match`), nothing else -/
+theorem C17_from_str :
+    Gen.fromStr_london = Gen.london.map (·.mnem) ∧ Gen.fromStr_shanghai = Gen.shanghai.map (·.mnem) ∧
+    Gen.fromStr_cancun = Gen.cancun.map (·.mnem) := by decide +kernel
+
+/-- hence the model's `parse` accepts a string iff it is one of the generated arms -/
+theorem C17_parse_iff_arm (m : List Nat) : (parse Gen.cancun m).isSome ↔ m ∈ Gen.fromStr_cancun := by
+  rw [C17_from_str.2.2]
+  simp only [parse, Option.isSome_map, List.find?_isSome, List.mem_map, beq_iff_eq]
 
 end EtkVerif.C17
